@@ -21,9 +21,11 @@ CROSS = {"C01-C": ["C08"], "C08-C": ["C02", "C06"], "C16-C": ["C04"], "C05-C": [
          # round 6 (K, L)
          "C01-K": ["C17"], "C02-K": ["C06", "C17"], "C02-L": ["C10", "C17"], "C16-L": ["C04"], "C04-K": ["C10", "C16"], "C19-K": ["C04"],
          # round 7 (M, N)
-         "C08-N": ["C02", "C06"], "C08-M": ["C19"], "C07-N": ["C19"], "C17-N": ["C19"], "C12-M": ["C13"], "C16-M": ["C04", "C10"]}
-THOROUGH_ONLY = {("C16-B", "C16"), ("C16-D", "C16")}
-NOT_EXPECTED = {"C06-N", "C09-N"}   # kept with meta.json "expected": "not detected" (BUILD_REPORT.md, round 7)
+         "C08-N": ["C02", "C06"], "C08-M": ["C19"], "C07-N": ["C19"], "C17-N": ["C19"], "C12-M": ["C13"], "C16-M": ["C04", "C10"],
+         # round 8 (O, P)
+         "C02-O": ["C06"], "C19-P": ["C04"], "C10-P": ["C04", "C16"], "C16-P": ["C04"], "C04-P": ["C10"], "C08-O": ["C02", "C06"], "C12-P": ["C13"]}
+THOROUGH_ONLY = {("C16-B", "C16"), ("C16-D", "C16"), ("C02-P", "C02")}   # C02-P: the NDEBUG build of the MPI leg
+NOT_EXPECTED = {"C06-N", "C09-N", "C09-P"}   # kept with meta.json "expected": "not detected" (BUILD_REPORT.md, round 7)
 # C19-E / C19-F change the refinement functions themselves (the subject of C08 / C07),
 # which C19 takes as given (it checks that each iteration uses the refinement of the previous result)
 OWN_BY_OTHER = {"C19-E": "C08", "C19-F": "C07", "C02-H": "C14", "C19-N": "C08", "C04-N": "C12", "C20-M": "C18"}   # C02-H: a compensation slot shared with the integral (C14's subject)
